@@ -211,24 +211,26 @@ func blindSumRule(P *Program, R *Report) {
 		fa := &ForAll{P: P, Spec: ForAllSpec{Coll: is(cbD + ".mUser"), Body: func(f *ssa.Function, l *Loop) *MustPass {
 			return &MustPass{Match: ck.m}
 		}}}
-		m := fa.inFn(fn, AcceptNilErr(1))
-		R.decide(rule, kConstruct+":blind:"+ck.name, "for every user share: "+ck.what, m.holds, m.detail, P.Pos(fn.Pos()))
+		m := fa.OnAccept(fn, AcceptNilErr(1))
+		R.decide(rule, kConstruct+":blind:"+ck.name, "for every user share: "+ck.what, m.Holds, m.Path, P.Pos(fn.Pos()))
 	}
-	// the sum
-	be := P.bigEval(fn)
+	// the sum (in ConstructCredential or in a helper it hands the message block to)
 	okSum, got := false, ""
-	allInstrs(fn, func(i ssa.Instruction) {
-		st, ok := i.(*ssa.Store)
-		if !ok {
-			return
-		}
-		ia, ok := st.Addr.(*ssa.IndexAddr)
-		if !ok || ia.X != msVal || desc(ia.Index) != key {
-			return
-		}
-		t := be.Use[st][st.Val]
-		got = t.String()
-		okSum = t.equal(tsum(tsym(share), tsym(cbD+".mUser[*]")))
+	deepVisit(P, fn, 2, func(g *ssa.Function) {
+		be := P.bigEval(g)
+		allInstrs(g, func(i ssa.Instruction) {
+			st, ok := i.(*ssa.Store)
+			if !ok {
+				return
+			}
+			ia, ok := st.Addr.(*ssa.IndexAddr)
+			if !ok || desc(ia.X) != msD || desc(ia.Index) != key {
+				return
+			}
+			t := be.Use[st][st.Val]
+			got = t.String()
+			okSum = t.equal(tsum(tsym(share), tsym(cbD+".mUser[*]")))
+		})
 	})
 	R.decide(rule, kConstruct+":blind:sum", "ms[i] = MIssuer[i] + mUser[i]", okSum, "got "+got, P.Pos(fn.Pos()))
 	// all loop: every user share is processed before the signature is verified
@@ -239,11 +241,11 @@ func blindSumRule(P *Program, R *Report) {
 				return false
 			}
 			ia, ok := st.Addr.(*ssa.IndexAddr)
-			return ok && ia.X == msVal && desc(ia.Index) == key
+			return ok && desc(ia.X) == msD && desc(ia.Index) == key
 		}}
 	}}}
-	m := fa.inFn(fn, AcceptNilErr(1))
-	R.decide(rule, kConstruct+":blind:every-share", "every user share is combined into its slot on every successful path", m.holds, m.detail, P.Pos(fn.Pos()))
+	m := fa.OnAccept(fn, AcceptNilErr(1))
+	R.decide(rule, kConstruct+":blind:every-share", "every user share is combined into its slot on every successful path", m.Holds, m.Path, P.Pos(fn.Pos()))
 }
 
 // hashRoles evaluates the 5-element sequence hashed by HashCommit in fn and returns descriptors + terms.
